@@ -1730,6 +1730,8 @@ impl<'a> Gen<'a> {
             main_path,
             rewrite,
             debug_log,
+            // a single source is as often named itself, or piped in, as found in a directory
+            input: if single { r.below(3) as u8 } else { 0 },
             hash_base: 0,
             readdir_seed: 0,
         }
